@@ -804,7 +804,7 @@ func runC07(c *Ctx) {
 			}
 		})
 		if c.Anchor("C07.R3", "wait gates (select) in Client.unsubscribe", len(selects) > 0) {
-			targets := CallsIn(unsub, false, orPred(w.calleeIs("Node.publishLeave", "Node.removePresence", "Client.removeMapPresence", "Client.cleanupKeyed"), fieldFuncCall("clientEventHub", "unsubscribeHandler")))
+			targets := CallsIn(unsub, false, orPred(w.calleeIs("Node.publishLeave", "Node.removePresence", "Client.removeMapPresence", "Client.cleanupKeyed", "perChannelWriter.delWriter"), fieldFuncCall("clientEventHub", "unsubscribeHandler")))
 			for _, ci := range targets {
 				stale := ""
 				for _, g := range Guards(ci) {
